@@ -86,7 +86,7 @@ G_C09_ClaimFinalizer(c, nodePids, created, gonePids) ==
     LET q == ClaimFinalizerParts(c, nodePids, created, gonePids) IN q.nodesGone /\ q.instancesGone
 \* the user-visible statement: a completed deletion never orphans a cloud instance.
 \* inst: the provider's instance table (sequence of [pid, state, ...]) at the instant the object disappears
-Inv_C09_NoLeak(created, inst) ==
+NoLeak(created, inst) ==
     \A i \in DOMAIN inst : inst[i].pid \in created => inst[i].state = "gone"
 
 \* ---------------------------------------------------------------- C10
